@@ -35,6 +35,10 @@ var claimVals = []uint64{0, 1, 2, 0xfc, 0xfd, 0xffff, 0x10000,
 	3728271, 3728272, 4000000, 4000001, 4194304, 4194305, 33554432, 33554433,
 	0x7fffffff, 0x80000000, 0xffffffff, 0x100000000, 1 << 62, 1<<63 - 1, 1 << 63, 0xffffffffffffffff}
 
+// Seeds after the first few of a decoder only get the CompactSize boundaries
+// and the integer extremes (the limit claims allocate up to 149 MB each).
+var claimValsSmall = []uint64{0, 1, 2, 0xfc, 0xfd, 0xffff, 0x10000, 0xffffffff, 0x100000000, 0xffffffffffffffff}
+
 var frameLenVals = []uint32{0, 1, 4000000, 4000001, 33554432, 33554433, 0x7fffffff, 0x80000000, 0xffffffff}
 
 // hgroup is one unit of hostile work: a decoder, a context and either the set
@@ -48,6 +52,9 @@ type hgroup struct {
 	spans []rw.Span
 	cmd   string // frame/reframe: command of the framed message
 	label string
+	// allClaims: rewrite every count field to every value of claimVals
+	// (otherwise claimValsSmall)
+	allClaims bool
 }
 
 func (g *hgroup) id() string {
@@ -79,17 +86,38 @@ func hostileGroups(full bool) []hgroup {
 			gs = append(gs, hgroup{dec: dec, c: c, kind: "short2", first: byte(f)})
 		}
 	}
+	// Every count limit is claimed in every count field of the first seeds of
+	// each decoder; for transactions (whose limit claims allocate up to 149 MB
+	// a piece) that is the witness carrying seed, for blocks the empty block
+	// and the block holding that transaction.
+	nSeeds := map[string]int{}
 	addSeed := func(dec string, c rw.Ctx, seed []byte, spans []rw.Span, label string) {
-		gs = append(gs, hgroup{dec: dec, c: c, kind: "seed", seed: seed, spans: spans, label: label})
+		g := hgroup{dec: dec, c: c, kind: "seed", seed: seed, spans: spans, label: label}
+		n := nSeeds[g.id()]
+		nSeeds[g.id()]++
+		switch dec {
+		case "msg:tx", "btcutil.tx":
+			g.allClaims = n == 1
+		case "msg:block", "btcutil.block", "txloc":
+			g.allClaims = n == 0 || n == 2
+		default:
+			g.allClaims = n < 3
+		}
+		gs = append(gs, g)
 	}
 	for _, cmd := range allCmds {
 		m := rw.ByCmd(cmd)
-		dom := domain(cmd, false)
-		for _, c := range hostileCtxs(cmd) {
+		dom := domain(cmd, false, false)
+		hc := hostileCtxs(cmd)
+		for ci, c := range hc {
 			if m.Defined(c.Pver) != rw.Yes {
 				continue
 			}
-			addShort("msg:"+cmd, c)
+			// the contexts of version and addr only differ behind the first
+			// two bytes: their short strings are run in the last context only
+			if !(cmd == "version" || cmd == "addr") || ci == len(hc)-1 {
+				addShort("msg:"+cmd, c)
+			}
 			nframe := 0
 			for i := range dom {
 				if !dom[i].seed {
@@ -101,7 +129,7 @@ func hostileGroups(full bool) []hgroup {
 					nframe++
 					fr := rw.Frame(uint32(wire.MainNet), cmd, b)
 					gs = append(gs, hgroup{dec: "frame", c: c, kind: "seed", seed: fr, spans: frameSpans(len(b)), cmd: cmd, label: dom[i].label})
-					gs = append(gs, hgroup{dec: "frame", c: c, kind: "reframe", seed: b, spans: sp, cmd: cmd, label: dom[i].label})
+					gs = append(gs, hgroup{dec: "frame", c: c, kind: "reframe", seed: b, spans: sp, cmd: cmd, label: dom[i].label, allClaims: nframe == 2})
 				}
 				if c.Pver == 0 {
 					switch cmd {
@@ -183,7 +211,7 @@ func mutants(g *hgroup, full bool, f func(k int, in []byte) bool) {
 		// payload mutants re-framed with a correct length and checksum:
 		// truncations, claimed counts, non-minimal CompactSizes
 		wrap := func(p []byte) bool { return emit(rw.Frame(uint32(wire.MainNet), g.cmd, p)) }
-		payloadMutants(g.seed, g.spans, false, false, wrap)
+		payloadMutants(g.seed, g.spans, false, false, g.allClaims, wrap)
 		return
 	}
 	seed := g.seed
@@ -191,7 +219,7 @@ func mutants(g *hgroup, full bool, f func(k int, in []byte) bool) {
 		return
 	}
 	ok := true
-	payloadMutants(seed, g.spans, true, full, func(in []byte) bool {
+	payloadMutants(seed, g.spans, true, full, g.allClaims, func(in []byte) bool {
 		ok = emit(in)
 		return ok
 	})
@@ -247,7 +275,11 @@ func mutants(g *hgroup, full bool, f func(k int, in []byte) bool) {
 // payloadMutants: truncations, single substitutions, CompactSize rewrites
 // (claimed values, non-minimal widths), one trailing byte; with pairs the
 // 2-deviation mutants inside count / flag fields.
-func payloadMutants(seed []byte, spans []rw.Span, subst, pairs bool, emit func([]byte) bool) {
+func payloadMutants(seed []byte, spans []rw.Span, subst, pairs, allClaims bool, emit func([]byte) bool) {
+	claims := claimValsSmall
+	if allClaims {
+		claims = claimVals
+	}
 	for n := 0; n < len(seed); n++ {
 		if !emit(seed[:n]) {
 			return
@@ -297,7 +329,7 @@ func payloadMutants(seed []byte, spans []rw.Span, subst, pairs bool, emit func([
 				}
 			}
 		}
-		for _, v := range claimVals {
+		for _, v := range claims {
 			if v == sp.Val {
 				continue
 			}
@@ -504,7 +536,7 @@ func canon(dec string, c rw.Ctx, in []byte, res *dres) (fs []finding) {
 			return
 		}
 		for i, l := range res.locs {
-			e, _ := rw.EncodeTx(txFromWire(b.Transactions[i]), true)
+			e := rw.EncodeTxBytes(txFromWire(b.Transactions[i]), true)
 			if l.TxStart != off || l.TxLen != len(e) || l.TxStart+l.TxLen > len(used) || !bytes.Equal(used[l.TxStart:l.TxStart+l.TxLen], e) {
 				bad("txloc", "tx %d reported at (%d,%d), its serialisation is %d bytes at %d", i, l.TxStart, l.TxLen, len(e), off)
 				return
@@ -513,7 +545,7 @@ func canon(dec string, c rw.Ctx, in []byte, res *dres) (fs []finding) {
 		}
 	case dec == "header":
 		h := res.value.(*wire.BlockHeader)
-		re, _ := rw.Encode(rw.HeaderFields, headerFromWire(h), c)
+		re := rw.EncodeBytes(rw.HeaderFields, headerFromWire(h), c)
 		if !bytes.Equal(re, used) {
 			bad("noncanonical-accept", "header re-encodes differently: %s", firstDiff(re, used))
 		}
@@ -610,7 +642,7 @@ func strictCanon(cmd string, c rw.Ctx, payload []byte, m wire.Message) bool {
 	if err != nil {
 		return false
 	}
-	re, _ := rw.Encode(rw.ByCmd(cmd).Fields, got, c)
+	re := rw.EncodeBytes(rw.ByCmd(cmd).Fields, got, c)
 	return bytes.Equal(re, payload)
 }
 
@@ -638,7 +670,7 @@ func canonMsg(cmd string, c rw.Ctx, used []byte, m wire.Message) (fs []finding) 
 		bad("decoded-value", "accepted value cannot be interpreted: %v", ferr)
 		return
 	}
-	refRe, _ := rw.Encode(lay.Fields, got, c)
+	refRe := rw.EncodeBytes(lay.Fields, got, c)
 	switch {
 	case cmd == "version":
 		if why := versionCanon(used, refRe, c); why != "" {
